@@ -2,7 +2,8 @@
    PROVED: (1) class bookkeeping of the chain: frequency mapping followed by global mapping is the composed mapping
    applied to the original rows, and a mapping inverting the injected permutation field restores the rows;
    (2) conditional leakage bound: with noise PSD sum_j sig_j a_j a_j^H + nu I and a distortionless zero-forcing
-   competitor v, every interferer's output power under the MVDR vector is <= nu |v|^2 (hence SIR >= sig_k/((K-1) nu |v|^2)).
+   competitor v, every interferer's output power under the MVDR vector is <= nu |v|^2; all interferers plus the output noise
+   together are <= nu |v|^2 as well, hence SINR >= sig_k/(nu |v|^2), and the threshold form (level >= T nu |v|^2 gives ratio >= T).
    The stages themselves are the objects of C01, C08, C10-C16.  NOT proved: the 99 % / 30 dB thresholds -- statistical
    statements about random scenes; explored by running the whole chain on generated scenes (harness/props/c17.py). *)
 From Coq Require Import Reals Lra.
@@ -37,6 +38,31 @@ Theorem C17_mvdr_leakage_bound_partial (D J : nat) (sig : nat -> R) (aj : nat ->
    <= nu * rsum D (fun i => Cmod (v i) * Cmod (v i)))%R.
 Proof. intros Hs Hn Hx Hc Hv1 Hv0 Hj. exact (mvdr_leakage_bound D J sig aj nu Hs Hn a x v Hx Hc Hv1 Hv0 j Hj). Qed.
 Print Assumptions C17_mvdr_leakage_bound_partial.
+
+(* all interferers together plus the white-noise term: total residual <= nu |v|^2 (the per-interferer bound above is a
+   corollary; the factor K-1 in the SIR estimate disappears) *)
+Theorem C17_mvdr_total_leakage_bound_partial (D J : nat) (sig : nat -> R) (aj : nat -> vec) (nu : R) (a x v : vec) :
+  (forall j, (j < J)%nat -> (0 <= sig j)%R) -> (0 <= nu)%R ->
+  (forall i, (i < D)%nat -> mv D (noise_psd J sig aj nu) x i = a i) -> dot D a x <> 0 ->
+  dot D v a = 1 -> (forall j, (j < J)%nat -> dot D v (aj j) = 0) ->
+  (rsum J (fun j => sig j * (Cmod (dot D (mvdr RO D a x) (aj j)) * Cmod (dot D (mvdr RO D a x) (aj j))))
+   + nu * rsum D (fun i => Cmod (mvdr RO D a x i) * Cmod (mvdr RO D a x i))
+   <= nu * rsum D (fun i => Cmod (v i) * Cmod (v i)))%R.
+Proof. intros Hs Hn Hx Hc Hv1 Hv0. exact (mvdr_total_leakage_bound D J sig aj nu Hs Hn a x v Hx Hc Hv1 Hv0). Qed.
+Print Assumptions C17_mvdr_total_leakage_bound_partial.
+
+(* threshold form of the 30 dB clause for the ideal PSDs: target power sk >= T * nu |v|^2 implies
+   output target power >= T * (output interference + output noise); T = 1000 is 30 dB *)
+Theorem C17_mvdr_sir_threshold_partial (D J : nat) (sig : nat -> R) (aj : nat -> vec) (nu : R) (a x v : vec) (T sk : R) :
+  (forall j, (j < J)%nat -> (0 <= sig j)%R) -> (0 <= nu)%R ->
+  (forall i, (i < D)%nat -> mv D (noise_psd J sig aj nu) x i = a i) -> dot D a x <> 0 ->
+  dot D v a = 1 -> (forall j, (j < J)%nat -> dot D v (aj j) = 0) ->
+  (0 <= T)%R -> (T * (nu * rsum D (fun i => Cmod (v i) * Cmod (v i))) <= sk)%R ->
+  (T * (rsum J (fun j => sig j * (Cmod (dot D (mvdr RO D a x) (aj j)) * Cmod (dot D (mvdr RO D a x) (aj j))))
+        + nu * rsum D (fun i => Cmod (mvdr RO D a x i) * Cmod (mvdr RO D a x i)))
+   <= sk * (Cmod (dot D (mvdr RO D a x) a) * Cmod (dot D (mvdr RO D a x) a)))%R.
+Proof. intros Hs Hn Hx Hc Hv1 Hv0 HT Hl. exact (mvdr_sir_threshold D J sig aj nu Hs Hn a x v Hx Hc Hv1 Hv0 T sk HT Hl). Qed.
+Print Assumptions C17_mvdr_sir_threshold_partial.
 
 Example C17_hypotheses_satisfiable : (0 <= 1)%R /\ (forall j, (j < 2)%nat -> (0 <= (fun _ : nat => 3) j)%R).
 Proof. split. lra. intros; lra. Qed.
